@@ -25,6 +25,8 @@ import (
 
 type P struct{}
 
+func init() { core.Register(P{}) }
+
 func (P) ID() string { return "C20" }
 func (P) Rule() string {
 	return "case = one content (0..64KiB) with 4-10 Range header strings drawn from a grammar (single, multiple, open-ended, suffix, " +
